@@ -4,6 +4,9 @@
 // Oracles are written from the header documentation in quad precision (c09_util.h: E_translation, E_scale,
 // E_shear33/44 from the "shear a for each b coord." sentences, Rodrigues rotations, Rx*Ry*Rz for XYZ Euler angles);
 // no Imath routine is used to produce an expected value.
+// Sub-check families: build_* / inplace_* / inplace_mixed_* / frames_* (generic and degenerate classes), and the later
+// *_near_* / *_structured_* / *_exact_* families, which place the inputs at and around the special cases an
+// implementation could single out (c09_util.h, second half, describes their generators).
 #include "c09_util.h"
 #include <ImathMatrixAlgo.h>
 #include <ImathFrame.h>
@@ -163,7 +166,7 @@ struct BuildGenDefault
 {
     template <class M, class T, int N> int matrix (vp::Ctx& c, M& m) { return gen_matrix<M, T, N> (c.s, m); }
     template <class T> Vec3<T>             point (vp::Ctx& c) { return gen_point<T> (c.s); }
-    template <class T> T                   param (vp::Ctx& c) { return gen_param<T> (c.s); }
+    template <class T> T                   param (vp::Ctx& c) { return gen_param_any<T> (c.s); }
     template <class T> Vec3<T>             param3 (vp::Ctx& c) { return gen_param3<T> (c.s); }
     template <class T> Vec2<T>             param2 (vp::Ctx& c) { return gen_param2<T> (c.s); }
     template <class T> T                   angle (vp::Ctx& c) { return gen_angle<T> (c.s); }
@@ -171,10 +174,98 @@ struct BuildGenDefault
     template <class T> Vec3<T>             axis (vp::Ctx& c, int& cls) { return gen_axis<T> (c.s, cls); }
 };
 
-template <class T, class P> static void build_ops (vp::Ctx& c, P& pol)
+// the four rotation builders; S integral: never called (the op is remapped), std::true_type overload does nothing
+template <class T, class S, class P> static void build_rotation (vp::Ctx&, P&, int, Matrix44<T>&, Matrix33<T>&, Matrix22<T>&, const Vec3<T>&, const Vec2<T>&, const std::string&, std::true_type) {}
+template <class T, class S, class P> static void build_rotation (vp::Ctx& c, P& pol, int op, Matrix44<T>& m4, Matrix33<T>& m3, Matrix22<T>& m2, const Vec3<T>& p3, const Vec2<T>& p2, const std::string& tn, std::false_type)
 {
-    vp::Src& s  = c.s;
-    int      op = s.pick (BUILD_OPS);
+    switch (op)
+    {
+        case B44_EULER:
+        {
+            Vec3<S> a = pol.template angle3<S> (c);
+            bool    multi = std::fabs (a.x) > 3.2 || std::fabs (a.y) > 3.2 || std::fabs (a.z) > 3.2;
+            if (multi)
+            {
+                c.label (BL_MULTIPERIOD);
+                c.nt ();
+            }
+            VP_NOTE (c, tn << " M44.setEulerAngles r=" << vstr (a, 3) << " previous=" << mstr (m4, 4) << " p=" << vstr (p3, 3));
+            const Matrix44<T>& r = m4.setEulerAngles (a);
+            VP_REQUIRE (c, &r == &m4, "m44-setEulerAngles/returns-this", "does not return *this");
+            // three sin/cos factors (<= 1 ulp each) and two roundings per term: measured worst slot error 1.33 eps,
+            // |M M^T - I| 2.6 eps, |det - 1| 2.4 eps (1.6e7 cases)
+            double amax = std::max (std::fabs ((double) a.x), std::max (std::fabs ((double) a.y), std::fabs ((double) a.z)));
+            check_builder<T, 4> (c, "m44-setEulerAngles", m4, E_euler ((quad) a.x, (quad) a.y, (quad) a.z), 6 * rot_scale<T, S> (3 * amax, true), true, p3, 12 * rot_scale<T, S> (0, false));
+            break;
+        }
+        case B44_AXISANGLE:
+        {
+            int     cls;
+            Vec3<S> ax  = pol.template axis<S> (c, cls);
+            S       ang = pol.template angle<S> (c);
+            if (cls == 2) c.label (BL_AXIS_TINY);
+            if (cls == 3) c.label (BL_AXIS_HUGE);
+            if (cls == 4) c.label (BL_AXIS_GRADED);
+            if (std::fabs (ang) > 3.2)
+            {
+                c.label (BL_MULTIPERIOD);
+                c.nt ();
+            }
+            c.nt (cls == 2 || cls == 3);
+            VP_NOTE (c, tn << " M44.setAxisAngle axis=" << vstr (ax, 3) << " angle=" << ang << " previous=" << mstr (m4, 4) << " p=" << vstr (p3, 3));
+            const Matrix44<T>& r = m4.setAxisAngle (ax, ang);
+            VP_REQUIRE (c, &r == &m4, "m44-setAxisAngle/returns-this", "does not return *this");
+            check_builder<T, 4> (c, "m44-setAxisAngle", m4, rodrigues_rowvec<4> ((quad) ax.x, (quad) ax.y, (quad) ax.z, (quad) ang), 24 * rot_scale<T, S> (0, false), true, p3, 48 * rot_scale<T, S> (0, false));
+            // the axis is normalised in T (a few ulps per component, squared and doubled when 1-cos = 2):
+            // measured worst slot error 5.5 eps, |M M^T - I| 10.8 eps, |det - 1| 6.8 eps (1.6e7 cases)
+            break;
+        }
+        case B33_ROTATION:
+        {
+            S ang = pol.template angle<S> (c);
+            if (std::fabs (ang) > 3.2)
+            {
+                c.label (BL_MULTIPERIOD);
+                c.nt ();
+            }
+            VP_NOTE (c, tn << " M33.setRotation r=" << ang << " previous=" << mstr (m3, 3) << " p=" << vstr (p2, 2));
+            const Matrix33<T>& r = m3.setRotation (ang);
+            VP_REQUIRE (c, &r == &m3, "m33-setRotation/returns-this", "does not return *this");
+            check_builder<T, 3> (c, "m33-setRotation", m3, E_rot33 ((quad) ang), 2 * rot_scale<T, S> (std::fabs ((double) ang), true), true, p2, 4 * rot_scale<T, S> (0, false)); // measured: slot 0.27 eps, orthonormality 0.73 eps
+            break;
+        }
+        case B22_ROTATION:
+        {
+            S ang = pol.template angle<S> (c);
+            if (std::fabs (ang) > 3.2)
+            {
+                c.label (BL_MULTIPERIOD);
+                c.nt ();
+            }
+            VP_NOTE (c, tn << " M22.setRotation r=" << ang << " previous=" << mstr (m2, 2) << " p=" << vstr (p2, 2));
+            const Matrix22<T>& r = m2.setRotation (ang);
+            VP_REQUIRE (c, &r == &m2, "m22-setRotation/returns-this", "does not return *this");
+            check_builder<T, 2> (c, "m22-setRotation", m2, E_rot22 ((quad) ang), 2 * rot_scale<T, S> (std::fabs ((double) ang), true), true, p2, 4 * rot_scale<T, S> (0, false)); // measured: slot 0.27 eps, orthonormality 0.72 eps
+            break;
+        }
+        default: break;
+    }
+}
+
+// T: matrix element type; S: element type of the parameter for the builders that are templates on it (every one except
+// setScale (T)); S == T in build_* (the replays' draw sequence), any of float / double / int / short in build_near_*.
+// Documented conversions for S != T: the exact builders store (T) value; setEulerAngles and Matrix22/33::setRotation
+// evaluate cos ((T) r) and keep it in variables of type S, setAxisAngle computes entirely in S - the rotation bounds are
+// scaled by rot_scale<T, S> exactly as for the in-place forms (c09_inplace.h).  No integral angles.
+template <class T, class S, class P> static void build_ops (vp::Ctx& c, P& pol)
+{
+    vp::Src&          s     = c.s;
+    const bool        s_int = std::is_integral<S>::value;
+    const bool        mixed = !std::is_same<S, T>::value;
+    const std::string tn    = std::string (TN<T>::n ()) + (mixed ? std::string (" <") + TN<S>::n () + ">" : std::string ());
+    int               op    = s.pick (BUILD_OPS);
+    if (s_int) // no integral angles: an exact builder of the same matrix size instead
+        op = op == B44_EULER ? B44_TRANSLATION : op == B44_AXISANGLE ? B44_SHEAR_SHEAR6 : op == B33_ROTATION ? B33_SHEAR_VEC2 : op == B22_ROTATION ? B22_SCALE_VEC : op;
     c.label (op);
     // the builder is invoked on a matrix with arbitrary previous contents: every slot must be overwritten
     Matrix44<T> m4;
@@ -209,20 +300,20 @@ template <class T, class P> static void build_ops (vp::Ctx& c, P& pol)
     {
         case B44_TRANSLATION:
         {
-            Vec3<T> t = pol.template param3<T> (c);
-            VP_NOTE (c, TN<T>::n () << " M44.setTranslation t=" << vstr (t, 3) << " previous=" << mstr (m4, 4) << " p=" << vstr (p3, 3));
+            Vec3<S> t = pol.template param3<S> (c);
+            VP_NOTE (c, tn << " M44.setTranslation t=" << vstr (t, 3) << " previous=" << mstr (m4, 4) << " p=" << vstr (p3, 3));
             const Matrix44<T>& r = m4.setTranslation (t);
             VP_REQUIRE (c, &r == &m4, "m44-setTranslation/returns-this", "does not return *this");
-            quad tq[3] = { (quad) t.x, (quad) t.y, (quad) t.z };
+            quad tq[3] = { (quad) (T) t.x, (quad) (T) t.y, (quad) (T) t.z };
             check_builder<T, 4> (c, "m44-setTranslation", m4, E_translation<4> (tq), 0, false, p3);
             Vec3<T> tr = m4.translation ();
-            VP_REQUIRE (c, same<T> (tr.x, t.x) && same<T> (tr.y, t.y) && same<T> (tr.z, t.z), "m44-translation()/after-set", TN<T>::n () << " translation() = " << vstr (tr, 3) << " after setTranslation(" << vstr (t, 3) << ")");
+            VP_REQUIRE (c, same<T> (tr.x, (T) t.x) && same<T> (tr.y, (T) t.y) && same<T> (tr.z, (T) t.z), "m44-translation()/after-set", TN<T>::n () << " translation() = " << vstr (tr, 3) << " after setTranslation(" << vstr (t, 3) << ")");
             break;
         }
         case B44_SCALE_UNIFORM:
         {
             T sc = pol.template param<T> (c);
-            VP_NOTE (c, TN<T>::n () << " M44.setScale(T) s=" << sc << " previous=" << mstr (m4, 4) << " p=" << vstr (p3, 3));
+            VP_NOTE (c, tn << " M44.setScale(T) s=" << sc << " previous=" << mstr (m4, 4) << " p=" << vstr (p3, 3));
             const Matrix44<T>& r = m4.setScale (sc);
             VP_REQUIRE (c, &r == &m4, "m44-setScale(T)/returns-this", "does not return *this");
             quad sq[3] = { (quad) sc, (quad) sc, (quad) sc };
@@ -231,94 +322,45 @@ template <class T, class P> static void build_ops (vp::Ctx& c, P& pol)
         }
         case B44_SCALE_VEC:
         {
-            Vec3<T> sc = pol.template param3<T> (c);
-            VP_NOTE (c, TN<T>::n () << " M44.setScale(Vec3) s=" << vstr (sc, 3) << " previous=" << mstr (m4, 4) << " p=" << vstr (p3, 3));
+            Vec3<S> sc = pol.template param3<S> (c);
+            VP_NOTE (c, tn << " M44.setScale(Vec3) s=" << vstr (sc, 3) << " previous=" << mstr (m4, 4) << " p=" << vstr (p3, 3));
             const Matrix44<T>& r = m4.setScale (sc);
             VP_REQUIRE (c, &r == &m4, "m44-setScale(Vec3)/returns-this", "does not return *this");
-            quad sq[3] = { (quad) sc.x, (quad) sc.y, (quad) sc.z };
+            quad sq[3] = { (quad) (T) sc.x, (quad) (T) sc.y, (quad) (T) sc.z };
             check_builder<T, 4> (c, "m44-setScale(Vec3)", m4, E_scale<4> (sq, 3), 0, false, p3);
             break;
         }
         case B44_SHEAR_VEC3:
         {
             // h[0]: x for each y, h[1]: x for each z, h[2]: y for each z
-            Vec3<T> h = pol.template param3<T> (c);
-            VP_NOTE (c, TN<T>::n () << " M44.setShear(Vec3) h=" << vstr (h, 3) << " previous=" << mstr (m4, 4) << " p=" << vstr (p3, 3));
+            Vec3<S> h = pol.template param3<S> (c);
+            VP_NOTE (c, tn << " M44.setShear(Vec3) h=" << vstr (h, 3) << " previous=" << mstr (m4, 4) << " p=" << vstr (p3, 3));
             const Matrix44<T>& r = m4.setShear (h);
             VP_REQUIRE (c, &r == &m4, "m44-setShear(Vec3)/returns-this", "does not return *this");
-            check_builder<T, 4> (c, "m44-setShear(Vec3)", m4, E_shear44 ((quad) h[0], (quad) h[1], (quad) h[2], 0, 0, 0), 0, false, p3);
+            check_builder<T, 4> (c, "m44-setShear(Vec3)", m4, E_shear44 ((quad) (T) h[0], (quad) (T) h[1], (quad) (T) h[2], 0, 0, 0), 0, false, p3);
             break;
         }
         case B44_SHEAR_SHEAR6:
         {
-            T h[6];
+            S h[6];
             for (int i = 0; i < 6; ++i)
-                h[i] = pol.template param<T> (c);
-            Shear6<T> sh (h[0], h[1], h[2], h[3], h[4], h[5]); // xy xz yz yx zx zy
-            VP_NOTE (c, TN<T>::n () << " M44.setShear(Shear6) xy=" << h[0] << " xz=" << h[1] << " yz=" << h[2] << " yx=" << h[3] << " zx=" << h[4] << " zy=" << h[5] << " previous=" << mstr (m4, 4) << " p=" << vstr (p3, 3));
+                h[i] = pol.template param<S> (c);
+            Shear6<S> sh (h[0], h[1], h[2], h[3], h[4], h[5]); // xy xz yz yx zx zy
+            VP_NOTE (c, tn << " M44.setShear(Shear6) xy=" << h[0] << " xz=" << h[1] << " yz=" << h[2] << " yx=" << h[3] << " zx=" << h[4] << " zy=" << h[5] << " previous=" << mstr (m4, 4) << " p=" << vstr (p3, 3));
             VP_REQUIRE (c, sh.xy == h[0] && sh.xz == h[1] && sh.yz == h[2] && sh.yx == h[3] && sh.zx == h[4] && sh.zy == h[5], "shear6-ctor-order", "Shear6 constructor argument order");
             const Matrix44<T>& r = m4.setShear (sh);
             VP_REQUIRE (c, &r == &m4, "m44-setShear(Shear6)/returns-this", "does not return *this");
-            check_builder<T, 4> (c, "m44-setShear(Shear6)", m4, E_shear44 ((quad) sh.xy, (quad) sh.xz, (quad) sh.yz, (quad) sh.yx, (quad) sh.zx, (quad) sh.zy), 0, false, p3);
+            check_builder<T, 4> (c, "m44-setShear(Shear6)", m4, E_shear44 ((quad) (T) sh.xy, (quad) (T) sh.xz, (quad) (T) sh.yz, (quad) (T) sh.yx, (quad) (T) sh.zx, (quad) (T) sh.zy), 0, false, p3);
             break;
         }
         case B44_EULER:
-        {
-            Vec3<T> a = pol.template angle3<T> (c);
-            bool    multi = std::fabs (a.x) > 3.2 || std::fabs (a.y) > 3.2 || std::fabs (a.z) > 3.2;
-            if (multi)
-            {
-                c.label (BL_MULTIPERIOD);
-                c.nt ();
-            }
-            VP_NOTE (c, TN<T>::n () << " M44.setEulerAngles r=" << vstr (a, 3) << " previous=" << mstr (m4, 4) << " p=" << vstr (p3, 3));
-            const Matrix44<T>& r = m4.setEulerAngles (a);
-            VP_REQUIRE (c, &r == &m4, "m44-setEulerAngles/returns-this", "does not return *this");
-            // three sin/cos factors (<= 1 ulp each) and two roundings per term: measured worst slot error 1.33 eps,
-            // |M M^T - I| 2.6 eps, |det - 1| 2.4 eps (1.6e7 cases)
-            check_builder<T, 4> (c, "m44-setEulerAngles", m4, E_euler ((quad) a.x, (quad) a.y, (quad) a.z), 6, true, p3, 12);
-            break;
-        }
         case B44_AXISANGLE:
-        {
-            int     cls;
-            Vec3<T> ax  = pol.template axis<T> (c, cls);
-            T       ang = pol.template angle<T> (c);
-            if (cls == 2) c.label (BL_AXIS_TINY);
-            if (cls == 3) c.label (BL_AXIS_HUGE);
-            if (cls == 4) c.label (BL_AXIS_GRADED);
-            if (std::fabs (ang) > 3.2)
-            {
-                c.label (BL_MULTIPERIOD);
-                c.nt ();
-            }
-            c.nt (cls == 2 || cls == 3);
-            VP_NOTE (c, TN<T>::n () << " M44.setAxisAngle axis=" << vstr (ax, 3) << " angle=" << ang << " previous=" << mstr (m4, 4) << " p=" << vstr (p3, 3));
-            const Matrix44<T>& r = m4.setAxisAngle (ax, ang);
-            VP_REQUIRE (c, &r == &m4, "m44-setAxisAngle/returns-this", "does not return *this");
-            check_builder<T, 4> (c, "m44-setAxisAngle", m4, rodrigues_rowvec<4> ((quad) ax.x, (quad) ax.y, (quad) ax.z, (quad) ang), 24, true, p3, 48);
-            // the axis is normalised in T (a few ulps per component, squared and doubled when 1-cos = 2):
-            // measured worst slot error 5.5 eps, |M M^T - I| 10.8 eps, |det - 1| 6.8 eps (1.6e7 cases)
-            break;
-        }
         case B33_ROTATION:
-        {
-            T ang = pol.template angle<T> (c);
-            if (std::fabs (ang) > 3.2)
-            {
-                c.label (BL_MULTIPERIOD);
-                c.nt ();
-            }
-            VP_NOTE (c, TN<T>::n () << " M33.setRotation r=" << ang << " previous=" << mstr (m3, 3) << " p=" << vstr (p2, 2));
-            const Matrix33<T>& r = m3.setRotation (ang);
-            VP_REQUIRE (c, &r == &m3, "m33-setRotation/returns-this", "does not return *this");
-            check_builder<T, 3> (c, "m33-setRotation", m3, E_rot33 ((quad) ang), 2, true, p2, 4); // measured: slot 0.27 eps, orthonormality 0.73 eps
-            break;
-        }
+        case B22_ROTATION: build_rotation<T, S> (c, pol, op, m4, m3, m2, p3, p2, tn, std::integral_constant<bool, std::is_integral<S>::value> ()); break;
         case B33_SCALE_UNIFORM:
         {
             T sc = pol.template param<T> (c);
-            VP_NOTE (c, TN<T>::n () << " M33.setScale(T) s=" << sc << " previous=" << mstr (m3, 3) << " p=" << vstr (p2, 2));
+            VP_NOTE (c, tn << " M33.setScale(T) s=" << sc << " previous=" << mstr (m3, 3) << " p=" << vstr (p2, 2));
             const Matrix33<T>& r = m3.setScale (sc);
             VP_REQUIRE (c, &r == &m3, "m33-setScale(T)/returns-this", "does not return *this");
             quad sq[2] = { (quad) sc, (quad) sc };
@@ -327,63 +369,49 @@ template <class T, class P> static void build_ops (vp::Ctx& c, P& pol)
         }
         case B33_SCALE_VEC:
         {
-            Vec2<T> sc = pol.template param2<T> (c);
-            VP_NOTE (c, TN<T>::n () << " M33.setScale(Vec2) s=" << vstr (sc, 2) << " previous=" << mstr (m3, 3) << " p=" << vstr (p2, 2));
+            Vec2<S> sc = pol.template param2<S> (c);
+            VP_NOTE (c, tn << " M33.setScale(Vec2) s=" << vstr (sc, 2) << " previous=" << mstr (m3, 3) << " p=" << vstr (p2, 2));
             const Matrix33<T>& r = m3.setScale (sc);
             VP_REQUIRE (c, &r == &m3, "m33-setScale(Vec2)/returns-this", "does not return *this");
-            quad sq[2] = { (quad) sc.x, (quad) sc.y };
+            quad sq[2] = { (quad) (T) sc.x, (quad) (T) sc.y };
             check_builder<T, 3> (c, "m33-setScale(Vec2)", m3, E_scale<3> (sq, 2), 0, false, p2);
             break;
         }
         case B33_TRANSLATION:
         {
-            Vec2<T> t = pol.template param2<T> (c);
-            VP_NOTE (c, TN<T>::n () << " M33.setTranslation t=" << vstr (t, 2) << " previous=" << mstr (m3, 3) << " p=" << vstr (p2, 2));
+            Vec2<S> t = pol.template param2<S> (c);
+            VP_NOTE (c, tn << " M33.setTranslation t=" << vstr (t, 2) << " previous=" << mstr (m3, 3) << " p=" << vstr (p2, 2));
             const Matrix33<T>& r = m3.setTranslation (t);
             VP_REQUIRE (c, &r == &m3, "m33-setTranslation/returns-this", "does not return *this");
-            quad tq[2] = { (quad) t.x, (quad) t.y };
+            quad tq[2] = { (quad) (T) t.x, (quad) (T) t.y };
             check_builder<T, 3> (c, "m33-setTranslation", m3, E_translation<3> (tq), 0, false, p2);
             Vec2<T> tr = m3.translation ();
-            VP_REQUIRE (c, same<T> (tr.x, t.x) && same<T> (tr.y, t.y), "m33-translation()/after-set", TN<T>::n () << " translation() = " << vstr (tr, 2) << " after setTranslation(" << vstr (t, 2) << ")");
+            VP_REQUIRE (c, same<T> (tr.x, (T) t.x) && same<T> (tr.y, (T) t.y), "m33-translation()/after-set", TN<T>::n () << " translation() = " << vstr (tr, 2) << " after setTranslation(" << vstr (t, 2) << ")");
             break;
         }
         case B33_SHEAR_SCALAR:
         {
-            T xy = pol.template param<T> (c);
-            VP_NOTE (c, TN<T>::n () << " M33.setShear(scalar) xy=" << xy << " previous=" << mstr (m3, 3) << " p=" << vstr (p2, 2));
+            S xy = pol.template param<S> (c);
+            VP_NOTE (c, tn << " M33.setShear(scalar) xy=" << xy << " previous=" << mstr (m3, 3) << " p=" << vstr (p2, 2));
             const Matrix33<T>& r = m3.setShear (xy);
             VP_REQUIRE (c, &r == &m3, "m33-setShear(scalar)/returns-this", "does not return *this");
-            check_builder<T, 3> (c, "m33-setShear(scalar)", m3, E_shear33 ((quad) xy, 0), 0, false, p2);
+            check_builder<T, 3> (c, "m33-setShear(scalar)", m3, E_shear33 ((quad) (T) xy, 0), 0, false, p2);
             break;
         }
         case B33_SHEAR_VEC2:
         {
             // h.x: x for each y, h.y: y for each x
-            Vec2<T> h = pol.template param2<T> (c);
-            VP_NOTE (c, TN<T>::n () << " M33.setShear(Vec2) h=" << vstr (h, 2) << " previous=" << mstr (m3, 3) << " p=" << vstr (p2, 2));
+            Vec2<S> h = pol.template param2<S> (c);
+            VP_NOTE (c, tn << " M33.setShear(Vec2) h=" << vstr (h, 2) << " previous=" << mstr (m3, 3) << " p=" << vstr (p2, 2));
             const Matrix33<T>& r = m3.setShear (h);
             VP_REQUIRE (c, &r == &m3, "m33-setShear(Vec2)/returns-this", "does not return *this");
-            check_builder<T, 3> (c, "m33-setShear(Vec2)", m3, E_shear33 ((quad) h.x, (quad) h.y), 0, false, p2);
-            break;
-        }
-        case B22_ROTATION:
-        {
-            T ang = pol.template angle<T> (c);
-            if (std::fabs (ang) > 3.2)
-            {
-                c.label (BL_MULTIPERIOD);
-                c.nt ();
-            }
-            VP_NOTE (c, TN<T>::n () << " M22.setRotation r=" << ang << " previous=" << mstr (m2, 2) << " p=" << vstr (p2, 2));
-            const Matrix22<T>& r = m2.setRotation (ang);
-            VP_REQUIRE (c, &r == &m2, "m22-setRotation/returns-this", "does not return *this");
-            check_builder<T, 2> (c, "m22-setRotation", m2, E_rot22 ((quad) ang), 2, true, p2, 4); // measured: slot 0.27 eps, orthonormality 0.72 eps
+            check_builder<T, 3> (c, "m33-setShear(Vec2)", m3, E_shear33 ((quad) (T) h.x, (quad) (T) h.y), 0, false, p2);
             break;
         }
         case B22_SCALE_UNIFORM:
         {
             T sc = pol.template param<T> (c);
-            VP_NOTE (c, TN<T>::n () << " M22.setScale(T) s=" << sc << " previous=" << mstr (m2, 2) << " p=" << vstr (p2, 2));
+            VP_NOTE (c, tn << " M22.setScale(T) s=" << sc << " previous=" << mstr (m2, 2) << " p=" << vstr (p2, 2));
             const Matrix22<T>& r = m2.setScale (sc);
             VP_REQUIRE (c, &r == &m2, "m22-setScale(T)/returns-this", "does not return *this");
             quad sq[2] = { (quad) sc, (quad) sc };
@@ -392,11 +420,11 @@ template <class T, class P> static void build_ops (vp::Ctx& c, P& pol)
         }
         default:
         {
-            Vec2<T> sc = pol.template param2<T> (c);
-            VP_NOTE (c, TN<T>::n () << " M22.setScale(Vec2) s=" << vstr (sc, 2) << " previous=" << mstr (m2, 2) << " p=" << vstr (p2, 2));
+            Vec2<S> sc = pol.template param2<S> (c);
+            VP_NOTE (c, tn << " M22.setScale(Vec2) s=" << vstr (sc, 2) << " previous=" << mstr (m2, 2) << " p=" << vstr (p2, 2));
             const Matrix22<T>& r = m2.setScale (sc);
             VP_REQUIRE (c, &r == &m2, "m22-setScale(Vec2)/returns-this", "does not return *this");
-            quad sq[2] = { (quad) sc.x, (quad) sc.y };
+            quad sq[2] = { (quad) (T) sc.x, (quad) (T) sc.y };
             check_builder<T, 2> (c, "m22-setScale(Vec2)", m2, E_scale<2> (sq, 2), 0, false, p2);
             break;
         }
@@ -406,7 +434,7 @@ template <class T, class P> static void build_ops (vp::Ctx& c, P& pol)
 template <class T> static void build_case (vp::Ctx& c)
 {
     BuildGenDefault pol;
-    build_ops<T> (c, pol);
+    build_ops<T, T> (c, pol);
 }
 
 #define C09_BUILD_RULE                                                                                                 \
@@ -424,10 +452,13 @@ VP_REQUIRE_LABELS (build_d, C09_BUILD_LABELS)
 // ===================================================================================================================
 // 4. builders again, at and around the special cases an implementation could single out: previous contents from the
 //    structured generator, parameters 0 / 2^-k / +-1 +- 2^-k / up to 2^20, angles +-0 / 2^-k / j*pi/2 +- 2^-k, axes of
-//    length 1 +- 2^-k (k = 4 .. digits+3), points with coordinates up to 2^20.  Same oracle and bounds as build_*:
+//    length 1 +- 2^-k (k = 4 .. digits+3), points with coordinates up to 2^20; parameter element types float / double /
+//    int / short where the builder is a template on it.  Same oracle and bounds as build_*:
 //    measured worst (C09_MEASURE, 1.2e6 cases per type): setAxisAngle slot 4.7 eps, |M M^T - I| 9.2 eps, |det - 1| 5.6 eps
 //    (bounds 24 / 48 / 48); setEulerAngles 1.05 / 2.2 / 2.0 (6 / 12 / 12); setRotation 0.27 / 0.72 / 0.72 (2 / 4 / 4);
-//    p * M error / bound <= 0.25; all other slots exact.
+//    p * M error / bound <= 0.25; all other slots exact.  Parameter type float on a double matrix, in eps(float):
+//    setRotation 0.25, setEulerAngles 0.86, setAxisAngle 4.0 (slots), 7.8 (|M M^T - I|); double on a float matrix:
+//    <= 32 eps for angles up to 126 (bound 2 (1 + |r|) resp. 6 (1 + 3 max|r|): the header rounds the angle to float).
 // ===================================================================================================================
 enum
 {
@@ -501,21 +532,50 @@ struct BuildGenNear
         return Vec3<T> ((T) u.x, (T) u.y, (T) u.z);
     }
 };
+enum
+{
+    BNL_S_WIDER = BNL0 + NL_COUNT,
+    BNL_S_NARROWER,
+    BNL_S_INT,
+    BNL_S_SHORT
+};
 template <class T> static void build_near_case (vp::Ctx& c)
 {
-    BuildGenNear pol;
+    typedef typename OtherFloat<T>::type O;
+    BuildGenNear                         pol;
     pol.l0 = BNL0;
-    build_ops<T> (c, pol);
+    int sk = (int) c.s.below (8);
+    switch (sk)
+    {
+        case 0:
+            c.label (BNL_S_INT);
+            build_ops<T, int> (c, pol);
+            break;
+        case 1:
+            c.label (BNL_S_SHORT);
+            build_ops<T, short> (c, pol);
+            break;
+        case 2:
+        case 3:
+            c.label (sizeof (O) > sizeof (T) ? BNL_S_WIDER : BNL_S_NARROWER);
+            build_ops<T, O> (c, pol);
+            break;
+        default:
+            c.label (BNL0 + NL_S_SAME);
+            build_ops<T, T> (c, pol);
+            break;
+    }
 }
 #define C09_BUILD_NEAR_RULE                                                                                            \
-    "one of 16 builders (rotations weighted x2-3) called on a matrix whose previous contents come from the structured generator (11 bases + {0, 1, -1, generic} mask, see inplace_structured_*); parameters from {0, +-2^-k, +-1 +- 2^-k, +-1, up to 2^20, generic}, angles from {+-0, +-2^-k, j*pi/2 +- 2^-k and neighbouring values, generic}, k = 4..digits+3; setAxisAngle axes of length 1 +- 2^-k (coordinate axis or generic direction; 1/4 the tiny / huge / graded classes); points with coordinates up to 2^20; oracle and bounds as build_*; non-trivial = a 2^-k class, masked previous contents, or as build_*"
+    "one of 16 builders (rotations weighted x2-3) with a parameter of element type S = the matrix's T (1/2), the other floating type (1/4), int or short (1/8 each; no integral angles; setScale(T) always takes T), called on a matrix whose previous contents come from the structured generator (11 bases + {0, 1, -1, generic} mask, see inplace_structured_*); parameters from {0, +-2^-k, +-1 +- 2^-k, +-1, up to 2^20, generic}, angles from {+-0, +-2^-k, j*pi/2 +- 2^-k and neighbouring values, generic}, k = 4..digits+3; setAxisAngle axes of length 1 +- 2^-k (coordinate axis or generic direction; 1/4 the tiny / huge / graded classes); points with coordinates up to 2^20; oracle and bounds as build_* with the parameter converted to T as documented, rotation bounds in max(eps(S),eps(T)) (+ eps(T)|r| where the header rounds the angle to T); non-trivial = a 2^-k class, masked previous contents, or as build_*"
+#define C09_BUILD_S_LABELS "param_wider_float(double on float matrix)", "param_narrower_float(float on double matrix)", "param_int", "param_short"
 #define C09_BUILD_NEAR_REQUIRED                                                                                        \
-    "m44_setTranslation", "m44_setScale_uniform", "m44_setScale_vec", "m44_setShear_vec3", "m44_setShear_shear6", "m44_setEulerAngles", "m44_setAxisAngle", "m33_setRotation", "m33_setScale_uniform", "m33_setScale_vec", "m33_setTranslation", "m33_setShear_scalar", "m33_setShear_vec2", "m22_setRotation", "m22_setScale_uniform", "m22_setScale_vec", "previous_contents_nonaffine", "matrix_identity", "matrix_identity_plus_2^-k_Eij", "matrix_projective_column_last_row_0001", "matrix_mask_0_1_-1_generic_applied", "param_zero", "param_2^-k", "param_+-1+-2^-k", "param_+-1", "param_up_to_2^20", "angle_zero", "angle_2^-k", "angle_j*pi/2+-2^-k", "axis_length_1+-2^-k"
+    "m44_setTranslation", "m44_setScale_uniform", "m44_setScale_vec", "m44_setShear_vec3", "m44_setShear_shear6", "m44_setEulerAngles", "m44_setAxisAngle", "m33_setRotation", "m33_setScale_uniform", "m33_setScale_vec", "m33_setTranslation", "m33_setShear_scalar", "m33_setShear_vec2", "m22_setRotation", "m22_setScale_uniform", "m22_setScale_vec", "previous_contents_nonaffine", "matrix_identity", "matrix_identity_plus_2^-k_Eij", "matrix_projective_column_last_row_0001", "matrix_mask_0_1_-1_generic_applied", "param_zero", "param_2^-k", "param_+-1+-2^-k", "param_+-1", "param_up_to_2^20", "angle_zero", "angle_2^-k", "angle_j*pi/2+-2^-k", "axis_length_1+-2^-k", "param_same_type", "param_int", "param_short"
 VP_RANDOM (build_near_f, 300000, 6000000, C09_BUILD_NEAR_RULE) { build_near_case<float> (c); }
-VP_LABELS (build_near_f, C09_BUILD_LABELS, C09_NEAR_LABELS)
-VP_REQUIRE_LABELS (build_near_f, C09_BUILD_NEAR_REQUIRED)
+VP_LABELS (build_near_f, C09_BUILD_LABELS, C09_NEAR_LABELS, C09_BUILD_S_LABELS)
+VP_REQUIRE_LABELS (build_near_f, C09_BUILD_NEAR_REQUIRED, "param_wider_float(double on float matrix)")
 VP_RANDOM (build_near_d, 300000, 6000000, C09_BUILD_NEAR_RULE) { build_near_case<double> (c); }
-VP_LABELS (build_near_d, C09_BUILD_LABELS, C09_NEAR_LABELS)
-VP_REQUIRE_LABELS (build_near_d, C09_BUILD_NEAR_REQUIRED)
+VP_LABELS (build_near_d, C09_BUILD_LABELS, C09_NEAR_LABELS, C09_BUILD_S_LABELS)
+VP_REQUIRE_LABELS (build_near_d, C09_BUILD_NEAR_REQUIRED, "param_narrower_float(float on double matrix)")
 
 VP_MAIN ("C09")
